@@ -63,6 +63,9 @@ func init() {
 type textCase struct {
 	Origin string `json:"origin"`
 	Text   string `json:"text"`
+	// BigFuel: the text is a grammar that legitimately works up to the 2000-state limit
+	// (quadratic in the number of states): the fuel is a fixed 400 M iterations (the unchanged code needs 16 M)
+	BigFuel bool `json:"big_fuel,omitempty"`
 }
 
 // corpusFiles returns the grammar texts used for prefixes and edits.
@@ -76,10 +79,26 @@ func corpusFiles() []gram.Named2 {
 			out = append(out, gram.Named2{Name: "examples/" + filepath.Base(p), Text: string(b)})
 		}
 	}
+	// "the n-th token from the end is TA": 2n+4 rules, about 2^n LR(0) states - far beyond the
+	// built-in limit of 2000 states for n >= 12; yaccgo must stop with its diagnostic, not build them all
+	for _, n := range []int{12, 16, 20} {
+		sp := &gram.Spec{Start: "S", Tokens: []gram.TokDecl{{Name: "TA"}, {Name: "TB"}}}
+		sp.Rules = append(sp.Rules, gram.Rule{L: "S", R: []string{"TA", "S"}}, gram.Rule{L: "S", R: []string{"TB", "S"}}, gram.Rule{L: "S", R: []string{"TA", "N1"}})
+		for i := 1; i < n; i++ {
+			next := fmt.Sprintf("N%d", i+1)
+			sp.Rules = append(sp.Rules, gram.Rule{L: fmt.Sprintf("N%d", i), R: []string{"TA", next}}, gram.Rule{L: fmt.Sprintf("N%d", i), R: []string{"TB", next}})
+		}
+		sp.Rules = append(sp.Rules, gram.Rule{L: fmt.Sprintf("N%d", n), R: nil})
+		out = append(out, gram.Named2{Name: fmt.Sprintf("exponential-automaton-%d", n), Text: sp.Render(), NoEdits: true})
+	}
 	for _, n := range gram.Families() {
 		out = append(out, gram.Named2{Name: "family:" + n.Name, Text: n.Spec.Render()})
 		if n.Name == "slr-expr" || n.Name == "ambig-expr-prec" || n.Name == "nullable-chain" {
-			out = append(out, gram.Named2{Name: "family+actions:" + n.Name, Text: gen.Decorate(n.Spec, nil, gen.UseAll).Source(gen.Go, "p")})
+			d := gen.Decorate(n.Spec, nil, gen.UseAll)
+			text := d.Source(gen.Go, "p")
+			// the program section is known exactly: everything after the second %% line of the rendering
+			epi := text[strings.LastIndex(text, "\n%%\n")+len("\n%%\n"):] // the harness epilogue has %% only inside a line
+			out = append(out, gram.Named2{Name: "family+actions:" + n.Name, Text: text, Epilogue: epi})
 		}
 	}
 	return out
@@ -177,6 +196,16 @@ func c13Work(w *Worker) {
 	defer func() { w.Max("phase_files_ms", time.Since(t0).Milliseconds()) }()
 	// (2) prefixes, (3) single edits
 	for _, f := range corpusFiles() {
+		if f.NoEdits {
+			// only the whole text (its prefixes are small automata, covered elsewhere)
+			if w.Mine(idx) {
+				c := &textCase{Origin: "file:" + f.Name, Text: f.Text, BigFuel: true}
+				w.Begin(idx, c)
+				c13Eval(w, c)
+			}
+			idx++
+			continue
+		}
 		for n := 0; n <= len(f.Text); n++ {
 			if w.Mine(idx) {
 				c := &textCase{Origin: "prefix:" + f.Name, Text: f.Text[:n]}
@@ -214,7 +243,13 @@ func c13Work(w *Worker) {
 func c13Eval(w *Worker, c *textCase) {
 	w.Count("evaluations", 1)
 	fuel := fuelFor(c.Text)
+	if c.BigFuel {
+		fuel = 400_000_000
+	}
 	res := ygo.Build(c.Text, ygo.Options{Fuel: fuel})
+	if c.BigFuel {
+		w.Max("ticks_big_automaton", res.Ticks)
+	}
 	hang := res.Fuel
 	path := "ParseAndBuild"
 	if res.OK() {
